@@ -21,7 +21,7 @@ def read_xwaves(filename):
     """
     # Load and construct dataset
     data = loadmat(filename)
-    time = [datetime.datetime(*row) for row in data["td"]]
+    time = [datetime.datetime(*[int(v) for v in row]) for row in data["td"]]
     freq = data["fd"].ravel()
     dir = data["thetad"].ravel()
     dset = xr.DataArray(
@@ -45,7 +45,7 @@ def read_xwaves(filename):
     # Setting standard attributes
     set_spec_attributes(dset)
 
-    return dset
+    return dset.sortby("time")
 
 
 class XWavesBackendEntrypoint(BackendEntrypoint):
